@@ -271,9 +271,19 @@ pub fn gen_mapping(rng: &mut Rng, cfg: &Cfg) -> GenMapping {
     }
     let nclasses = rng.range(cfg.min_classes, cfg.max_classes);
     let mut used: Vec<String> = Vec::new();
+    // member lines of earlier blocks, per obfuscated class name (for duplicate blocks that
+    // repeat entries of the block they replace)
+    let mut earlier: Vec<(String, Vec<String>)> = Vec::new();
     for _ in 0..nclasses {
-        let obf: String = if !used.is_empty() && rng.pct(10) {
-            rng.pick(&used).clone() // duplicate class name
+        let mut replay: Vec<String> = Vec::new();
+        let obf: String = if !used.is_empty() && rng.pct(12) {
+            let name = rng.pick(&used).clone(); // duplicate class name
+            if rng.pct(60) {
+                if let Some((_, ls)) = earlier.iter().rev().find(|(n, _)| *n == name) {
+                    replay = ls.clone();
+                }
+            }
+            name
         } else if cfg.many_similar {
             similar_name(rng)
         } else if rng.pct(6) {
@@ -293,8 +303,14 @@ pub fn gen_mapping(rng: &mut Rng, cfg: &Cfg) -> GenMapping {
         };
         let obf_print = if cfg.empty_names && rng.pct(3) { String::new() } else { obf };
         lines.push(format!("{} -> {}:", orig, obf_print));
+        let block_start = lines.len();
         if rng.pct(35) {
             lines.push(source_file_line(rng, cfg));
+        }
+        for l in &replay {
+            if rng.pct(70) {
+                lines.push(l.clone());
+            }
         }
         let nmem = rng.below(cfg.max_members + 1);
         let mut i = 0;
@@ -332,6 +348,8 @@ pub fn gen_mapping(rng: &mut Rng, cfg: &Cfg) -> GenMapping {
                 lines.push(last);
             }
         }
+        let members: Vec<String> = lines[block_start..].iter().filter(|l| l.starts_with("    ") && l.contains('(')).cloned().collect();
+        earlier.push((used.last().unwrap().clone(), members));
     }
     // terminators
     let term = cfg.term.unwrap_or(rng.pick(&[Term::Lf, Term::Lf, Term::CrLf, Term::Cr, Term::Mixed]));
